@@ -159,6 +159,9 @@ type c17Level struct {
 	Accepts        []string `json:"accepts"`       // names of levels whose canonical prompt this level's matcher accepts
 	Documented     []string `json:"documented"`    // typical prompts of this level (spec/platform_prompts.json, hand-written)
 	DocumentedBad  []string `json:"documentedbad"` // those that the level\'s pattern (or the joined pattern) no longer accepts
+	// DocumentedForeign: "other-level<-prompt" for every typical prompt of this level that the matcher of ANOTHER level accepts too,
+	// unless that level is a declared twin (same pattern and exclusions): the prompt no longer tells the two levels apart
+	DocumentedForeign []string `json:"documentedforeign"`
 }
 
 type c17Step struct {
@@ -168,19 +171,20 @@ type c17Step struct {
 }
 
 type c17Def struct {
-	Name       string     `json:"name"`
-	Variant    string     `json:"variant"`
-	Loads      bool       `json:"loads"`
-	LoadError  string     `json:"loaderror"`
-	Declared   string     `json:"declared"`   // driver-type in the file
-	DriverType string     `json:"drivertype"` // what the loader built
-	Default    string     `json:"default"`
-	Levels     []c17Level `json:"levels"`
-	OnOpen     []c17Step  `json:"onopen"`
-	OnClose    []c17Step  `json:"onclose"`
-	MergeOK    bool       `json:"mergeok"` // variant: every section equals the variant's when it defines it, else the default's
-	MergeDiff  string     `json:"mergediff"`
-	Variants   []string   `json:"variants"`
+	Name        string     `json:"name"`
+	Variant     string     `json:"variant"`
+	Loads       bool       `json:"loads"`
+	LoadError   string     `json:"loaderror"`
+	Declared    string     `json:"declared"`   // driver-type in the file
+	DriverType  string     `json:"drivertype"` // what the loader built
+	Default     string     `json:"default"`
+	Levels      []c17Level `json:"levels"`
+	OnOpen      []c17Step  `json:"onopen"`
+	OnClose     []c17Step  `json:"onclose"`
+	UnknownKeys []string   `json:"unknownkeys"` // keys of the file that no field of the loader's types takes (a misspelt key is silently dropped)
+	MergeOK     bool       `json:"mergeok"`     // variant: every section equals the variant's when it defines it, else the default's
+	MergeDiff   string     `json:"mergediff"`
+	Variants    []string   `json:"variants"`
 }
 
 type rawPlatform struct {
@@ -240,6 +244,11 @@ func exportDef(name, variant string) *c17Def {
 	fileBytes, ferr := assets.Assets.ReadFile("platforms/" + name + ".yaml")
 	if ferr == nil {
 		_ = yaml.Unmarshal(fileBytes, &raw)
+		d.UnknownKeys = unknownKeys(fileBytes)
+	}
+
+	if d.UnknownKeys == nil {
+		d.UnknownKeys = []string{}
 	}
 
 	var p *platform.Platform
@@ -370,6 +379,35 @@ func exportDef(name, variant string) *c17Def {
 		}
 
 		d.Levels = append(d.Levels, lv)
+	}
+
+	for i := range d.Levels {
+		li := &d.Levels[i]
+		li.DocumentedForeign = []string{}
+
+		for _, other := range d.Levels {
+			if other.Name == li.Name || res[other.Name] == nil {
+				continue
+			}
+
+			if other.Pattern == li.Pattern && strings.Join(other.NotContains, "|") == strings.Join(li.NotContains, "|") {
+				continue // twins by definition
+			}
+
+			for _, dp := range li.Documented {
+				ex := false
+
+				for _, nc := range other.NotContains {
+					if strings.Contains(dp, nc) {
+						ex = true
+					}
+				}
+
+				if !ex && res[other.Name].MatchString(dp) {
+					li.DocumentedForeign = append(li.DocumentedForeign, other.Name+"<-"+dp)
+				}
+			}
+		}
 	}
 
 	for i := range d.Levels {
@@ -686,8 +724,22 @@ func c17Run(s *c17Scn) verdict {
 
 		var aerr error
 
+		placed := lv[start] != nil && lv[start].Escalate == "" && lv[start].Previous != ""
+
 		fin, pan = withWatchdog(30*time.Second, func() {
-			aerr = nd.AcquirePriv(start)
+			if placed {
+				// a level that cannot be entered through the driver (no escalate command): the user moved the device there by
+				// hand; the driver has to find its way out from what the prompt says
+				pipe.Lock()
+				cli.Mode = start
+				pipe.Unlock()
+
+				_, aerr = nd.GetPrompt()
+				_, _ = nd.GetPrompt()
+			} else {
+				aerr = nd.AcquirePriv(start)
+			}
+
 			if aerr == nil {
 				aerr = nd.AcquirePriv(target)
 			}
@@ -754,4 +806,82 @@ func c17(_ []string) error {
 	parallel(len(scns), 8, func(i int) { emit(c17Run(scns[i])) })
 
 	return nil
+}
+
+// yamlTags returns the yaml keys the fields of struct type t take.
+func yamlTags(t reflect.Type) map[string]bool {
+	m := map[string]bool{}
+
+	for t.Kind() == reflect.Ptr {
+		t = t.Elem()
+	}
+
+	for i := 0; i < t.NumField(); i++ {
+		if tag := strings.Split(t.Field(i).Tag.Get("yaml"), ",")[0]; tag != "" && tag != "-" {
+			m[tag] = true
+		}
+	}
+
+	return m
+}
+
+// unknownKeys lists the keys of a definition file, at the levels the loader decodes into structs, that no struct field takes.
+// Keys the shipped definitions carry for other implementations (textfsm-platform, genie-platform) are known to be ignored.
+func unknownKeys(file []byte) []string {
+	var doc map[string]interface{}
+
+	if yaml.Unmarshal(file, &doc) != nil {
+		return nil
+	}
+
+	out := []string{}
+	defTags := yamlTags(reflect.TypeOf(platform.Definition{}))
+	platTags := yamlTags(reflect.TypeOf(platform.Platform{}))
+	lvlTags := yamlTags(reflect.TypeOf(network.PrivilegeLevel{}))
+	ignorable := map[string]bool{"textfsm-platform": true, "genie-platform": true}
+
+	for k := range doc {
+		if !defTags[k] {
+			out = append(out, k)
+		}
+	}
+
+	checkPlat := func(where string, v interface{}) {
+		pm, ok := v.(map[string]interface{})
+		if !ok {
+			return
+		}
+
+		for k, val := range pm {
+			if !platTags[k] && !ignorable[k] {
+				out = append(out, where+"."+k)
+			}
+
+			if k == "privilege-levels" {
+				if lm, ok2 := val.(map[string]interface{}); ok2 {
+					for ln, lv := range lm {
+						if fm, ok3 := lv.(map[string]interface{}); ok3 {
+							for fk := range fm {
+								if !lvlTags[fk] {
+									out = append(out, where+".privilege-levels."+ln+"."+fk)
+								}
+							}
+						}
+					}
+				}
+			}
+		}
+	}
+
+	checkPlat("default", doc["default"])
+
+	if vs, ok := doc["variants"].(map[string]interface{}); ok {
+		for vn, v := range vs {
+			checkPlat("variants."+vn, v)
+		}
+	}
+
+	sort.Strings(out)
+
+	return out
 }
